@@ -160,6 +160,7 @@ PROPS["C01"] = {
                     {"checks": 1500, "shards": 8, "env": {"C01_BUDGET": 20000}}),
                   T("TestC01Generators", {"checks": 100, "shards": 4, "env": {"C01_MINBITS": 14, "C01_PRODUCT_LOG2": 19}},
                     {"checks": 300, "shards": 16, "env": {"C01_MINBITS": 10, "C01_PRODUCT_LOG2": 23}}),
+                  T("TestC01HugePrefix", {"checks": 24, "shards": 2}, {"checks": 300, "shards": 8}),
                   {"name": "TestC01BigSubnet", "quick": {"skip": True}, "variant": "b8",
                    "thorough": {"checks": 1, "env": {"C01_BIG_BITS": 8}, "timeout": 3000}},
                   {"name": "TestC01BigSubnet", "quick": {"skip": True}, "variant": "b5",
